@@ -152,7 +152,8 @@ func (ch *channel) ReadFcall(ctx context.Context, fcall *Fcall) error {
 
 	// clear out the fcall
 	*fcall = Fcall{}
-	if err := ch.codec.Unmarshal(ch.rdbuf[:n], fcall); err != nil {
+	// n counts the 4-byte size header, which is not part of rdbuf.
+	if err := ch.codec.Unmarshal(ch.rdbuf[:n-channelMessageHeaderSize], fcall); err != nil {
 		return err
 	}
 
